@@ -14,6 +14,7 @@ import (
 
 	"github.com/anishathalye/porcupine"
 	"github.com/boz/kcache"
+	metav1 "k8s.io/apimachinery/pkg/apis/meta/v1"
 )
 
 // Linear is the scenario of C15: writer and reader goroutines hammer one cache
@@ -135,7 +136,11 @@ func genC15(g GenCtx) interface{} {
 			switch rng.Intn(6) {
 			case 0:
 				k := cacheKeys[rng.Intn(nkeys)]
-				ops = append(ops, "get:"+k[0]+"/"+k[1])
+				if rng.Intn(2) == 0 {
+					ops = append(ops, "getobj:"+k[0]+"/"+k[1]+"#"+pick(rng, "app=a", "app=b", "tier=x", "none"))
+				} else {
+					ops = append(ops, "get:"+k[0]+"/"+k[1])
+				}
 			case 1:
 				ops = append(ops, "scribble")
 			default:
@@ -307,11 +312,25 @@ func runC15(sci interface{}) {
 			for _, op := range ops {
 				h := &histOp{Client: 100 + r, Call: tick()}
 				hist = append(hist, h)
-				if strings.HasPrefix(op, "get:") {
-					key := strings.TrimPrefix(op, "get:")
+				if strings.HasPrefix(op, "get:") || strings.HasPrefix(op, "getobj:") {
+					key := strings.TrimPrefix(strings.TrimPrefix(op, "getobj:"), "get:")
+					var objLabels map[string]string
+					if i := strings.Index(key, "#"); i >= 0 {
+						if kv := strings.SplitN(key[i+1:], "=", 2); len(kv) == 2 {
+							objLabels = map[string]string{kv[0]: kv[1]}
+						}
+						key = key[:i]
+					}
 					parts := strings.SplitN(key, "/", 2)
 					h.In = linIn{Kind: "get", Key: key}
-					o, err := c.Get(parts[0], parts[1])
+					var o metav1.Object
+					var err error
+					if strings.HasPrefix(op, "getobj:") {
+						// by the caller's own copy of the object, which may be stale
+						o, err = c.GetObject(world.BuildMeta("pod", world.Spec{NS: parts[0], Name: parts[1], RV: "1", Labels: objLabels}))
+					} else {
+						o, err = c.Get(parts[0], parts[1])
+					}
 					if err != nil {
 						if !cancelled {
 							detsim.Fail("cache-read-error", "Get on a running cache: %v", err)
@@ -361,15 +380,16 @@ func runC15(sci interface{}) {
 
 // ---- the sequential model: reference cache, state encoded as a string
 
-func encodeState(filter string, ids []string) string { return filter + "|" + strings.Join(ids, ";") }
+// (separators that can occur neither in a filter term's JSON nor in an object id)
+func encodeState(filter string, ids []string) string { return filter + "\x00" + strings.Join(ids, "\x01") }
 
 func decodeState(st string) (world.FilterSpec, *world.RefCache) {
-	i := strings.Index(st, "|")
+	i := strings.Index(st, "\x00")
 	var f world.FilterSpec
 	jsonUnmarshal(st[:i], &f)
 	ref := world.NewRefCache(f.Pred())
 	if st[i+1:] != "" {
-		for _, id := range strings.Split(st[i+1:], ";") {
+		for _, id := range strings.Split(st[i+1:], "\x01") {
 			s := parseID(id)
 			ref.Items[s.Key()] = s
 		}
